@@ -13,13 +13,16 @@ def instances(tier):
     q = tier == 'quick'
     return [
         {"label": "fault-at-each-operation", "cfg": PLAIN,
-         "consts": dict(HttpItems='HttpAll', Items='C09Items', Cfg='CfgPlain', MaxItems=2 if q else 3, ChunkMax=2,
+         "consts": dict(HttpItems='HttpAll', Items='C09Items', Cfg='CfgPlain', MaxItems=2, ChunkMax=2,
                         Faults=ALL_FAULTS, NAddr=3, Reacts={"none", "send", "ping", "close"},
-                        ReactAt={"connected", "ready", "text", "ping", "closing"}, MaxReacts=1 if q else 2)},
+                        ReactAt={"connected", "ready", "text", "ping", "closing"}, MaxReacts=1)},
         {"label": "auto-ping-write-faults", "cfg": TIMERS,
          "consts": dict(HttpItems='HttpOk', Items='C09Items', Cfg='CfgPing', MaxItems=1, ChunkMax=1, MaxIdle=2, Dts={0, 5},
                         Faults={"write_error", "recv_error"}, Reacts={"none"})},
-    ]
+    ] + ([] if q else [
+        {"label": "faults-deep-simulation", "cfg": PLAIN, "simulate": "num=30000", "depth": 300,
+         "consts": dict(HttpItems='HttpAll', Items='C09Items', Cfg='CfgPlain', MaxItems=6, ChunkMax=3, Faults=ALL_FAULTS, NAddr=3,
+                        Reacts={"none", "send", "ping", "close"}, ReactAt={"connected", "ready", "text", "ping", "closing", "poll"}, MaxReacts=3)}])
 
 
 _offset_budget = {}
